@@ -518,6 +518,7 @@ type Contract struct {
 	IterInvs   []*Clause  // function literal: invariant indexed by $k = number of completed activations that returned false
 	IterStops  []*Clause  // function literal: holds when an activation returns true (the iterator stops there)
 	Preserves  []*Clause  // function literals only: one-state invariant over the captured variables (also a requires and an ensures)
+	GoInvs     []*Clause  // goinv E: invariant shared with the goroutines this function starts (see goInvariant in instr.go)
 }
 
 // Callback (extern contracts): `callback fn x y v : dom` states that the callee calls its function parameter fn only
@@ -598,7 +599,7 @@ var clauseKeywords = map[string]bool{
 	"func": true, "pure": true, "opaque": true, "ground": true, "sealed": true, "props": true, "requires": true, "ensures": true, "modifies": true,
 	"loop": true, "invariant": true, "decreases": true, "assert_at": true, "table": true, "axiom": true,
 	"lemma": true, "inline": true, "hint": true, "chaninv": true, "arith": true, "trusted": true, "cover": true, "note": true,
-	"maypanic": true, "noauto": true, "cases": true, "float": true, "ghostzero": true, "params": true, "allowexit": true, "extern": true, "makelimit": true, "callback": true, "preserves": true, "iterates": true, "iterated_by": true, "iterinv": true, "iterstop": true, "ghostset": true,
+	"maypanic": true, "noauto": true, "cases": true, "float": true, "ghostzero": true, "params": true, "allowexit": true, "extern": true, "makelimit": true, "callback": true, "preserves": true, "goinv": true, "iterates": true, "iterated_by": true, "iterinv": true, "iterstop": true, "ghostset": true,
 }
 
 // parseTags parses an optional "[C01,C02]" or "[name]" prefix
@@ -785,6 +786,24 @@ func ParseSpecFile(path, pkg, content string) (*SpecFile, error) {
 			} else {
 				cur.Ensures = append(cur.Ensures, c)
 			}
+		case "goinv":
+			// goinv E (contract of a function that starts goroutines with `go func() {...}()`): E is a one-state invariant
+			// over the locals of the function, shared with the function literals it starts: proved at every `go` statement
+			// and at every WaitGroup.Wait before the effects of the goroutines are havocked, assumed after the havoc. Every
+			// literal started must carry the same text as a `preserves` clause (and no other precondition).
+			if cur == nil || curLemma != nil {
+				return nil, fmt.Errorf("%s:%d: goinv belongs to a func contract", path, l.line)
+			}
+			for _, bad := range []string{"old(", "fresh(", "allocated(", "entry("} {
+				if strings.Contains(rest, bad) {
+					return nil, fmt.Errorf("%s:%d: goinv: %s...) is relative to one activation and cannot be used in a shared invariant", path, l.line, bad)
+				}
+			}
+			c, err := mkClause(kw, rest, l.line)
+			if err != nil {
+				return nil, err
+			}
+			cur.GoInvs = append(cur.GoInvs, c)
 		case "preserves":
 			// preserves E (contract of a function literal): E is a one-state invariant over the captured variables.
 			// It is assumed at the entry of the literal and proved at each of its returns (requires + ensures). Where the
